@@ -7,6 +7,7 @@
 #include <stdarg.h>
 #include <unistd.h>
 #include <fcntl.h>
+#include <sys/personality.h>
 
 typedef struct hc_args {
 	const char *tier; int thorough; double budget_s; int workers; const char *replay; int verbose;
@@ -17,6 +18,15 @@ static hc_args hc_parse(int argc, char **argv, const char *prop)
 {
 	hc_args a; memset(&a, 0, sizeof a);
 	(void)prop;
+	/* address-space randomisation off: stale bytes that real code copies around (uninitialised tails of
+	 * sockaddr buffers etc.) then have the same values in every run, so state counts are reproducible */
+	{
+		int pers = personality(0xffffffff);
+		if (pers != -1 && !(pers & ADDR_NO_RANDOMIZE) && !getenv("VERIF_ASLR_TRIED")) {
+			setenv("VERIF_ASLR_TRIED", "1", 1);
+			if (personality(pers | ADDR_NO_RANDOMIZE) != -1) execv("/proc/self/exe", argv);
+		}
+	}
 	a.tier = "quick"; a.budget_s = 100; a.workers = 16;
 	for (int i = 1; i < argc; i++) {
 		if (!strcmp(argv[i], "--tier") && i + 1 < argc) a.tier = argv[++i];
@@ -24,6 +34,7 @@ static hc_args hc_parse(int argc, char **argv, const char *prop)
 		else if (!strcmp(argv[i], "--workers") && i + 1 < argc) a.workers = atoi(argv[++i]);
 		else if (!strcmp(argv[i], "--replay") && i + 1 < argc) a.replay = argv[++i];
 		else if (!strcmp(argv[i], "-v")) a.verbose = 1;
+		else if (!strcmp(argv[i], "--part") && i + 1 < argc) { extern const char *xp_part; xp_part = argv[++i]; }
 		else if (a.nextra < 8) a.extra[a.nextra++] = argv[i];
 	}
 	a.thorough = !strcmp(a.tier, "thorough");
